@@ -84,7 +84,14 @@ if "--no-detect" in sys.argv:
 rc, o = sh("git -C /repo status --porcelain")
 assert o.strip() == "", "/repo is not clean: " + o
 det = {}
+# a marker outside the work tree says that /repo is patched: bin/check and bin/setup report it, so a
+# session that dies here (SIGKILL cannot be caught) does not leave a seeded change behind unnoticed
+MARK = "/repo/.git/verif-seeded-patch"
+import signal
+for s in (signal.SIGTERM, signal.SIGHUP):
+    signal.signal(s, lambda *_: sys.exit(143))  # run the finally clause
 try:
+    open(MARK, "w").write(f"{prop}-{rnd}{idx} {patch}\n")
     rc, o = sh(f"git -C /repo apply {patch}")
     if rc != 0:
         det["error"] = "patch does not apply to /repo: " + o[-500:]
@@ -100,6 +107,7 @@ try:
             det[p] = {"exit": rc, "wall_s": round(time.time() - t0, 1), "lines": [l[:400] for l in lines][:8]}
 finally:
     sh("git -C /repo checkout -- .")
+    if os.path.exists(MARK): os.remove(MARK)
 rc, o = sh("git -C /repo status --porcelain")
 assert o.strip() == "", "/repo not restored: " + o
 res["detection"] = det
